@@ -48,6 +48,9 @@ def run(tier):
         scen.append({"shape": kn, "nproofs": s["shape"]["nproofs"],
                      "hash": "poseidon" if i % 3 == 2 else "blake2b",
                      "seed": rng.randrange(1 << 30), "bits": i < nbits})
+    # the standard library's own entry points (verify, batch_verify): byte-level plan on proofs of a small relation
+    for i in range(2 if tier == "quick" else 12):
+        scen.append({"stdlib": True, "seed": rng.randrange(1 << 20)})
     chunks = [scen[i::vlib.NCPU] for i in range(vlib.NCPU)]
     jobs = []
     for i, ch in enumerate(chunks):
@@ -61,16 +64,18 @@ def run(tier):
     for j in jobs:
         rows.extend(r for r in vlib.read_ndjson(j[2]) if r.get("ev") != "header")
     _, runs = vlib.split_runs(rows)
-    ntamper = sum(1 for r in rows if r.get("ev") == "Tamper")
+    ntamper = sum(1 for r in rows if r.get("ev") in ("Tamper", "STamper"))
     nflips = sum(r.get("n", 0) for r in rows if r.get("ev") == "BitFlips")
     log(f"[C03] {len(runs)} proofs, {ntamper} tampers, {nflips} bit flips")
 
     good, rejected, st = vlib.validate_runs(rows, "Binding_Trace.tla", "Binding_Trace.cfg", "C03", "bind",
                                             max_rejects=12)
     for run_rows, line, evt in rejected:
-        if evt.get("ev") == "Tamper":
+        if evt.get("ev") in ("Tamper", "STamper"):
             w = evt["what"]
             key = {"t": w["t"], "m": w.get("m", ""), "kind": w.get("kind", ""), "res": evt["res"]}
+            if evt["ev"] == "STamper":
+                key["entry"] = w["entry"]
             what = (f"tampered input not answered with the model's verdict: {w} -> {evt['res']} ({evt.get('detail')}); "
                     f"facts proof_same={evt['proof_same']} stmt_same={evt['stmt_same']} key_same={evt['key_same']}")
             rep.violation(key, what, {"scenario": run_rows[0]["sc"], "event": evt})
@@ -97,7 +102,7 @@ def run(tier):
                  "edit, committed-instance replacement, wrong key / k / transcript hash, (thorough) every single-bit "
                  "flip; distinct = distinct (proof, edit) pairs, identity controls excluded"),
         "samples": [r for r in rows if r.get("ev") == "Tamper"][:3] + [runs[0][0]["sc"]],
-        "proofs": len(runs),
+        "proofs": len(runs), "stdlib_entry_point_tampers": sum(1 for r in rows if r.get("ev") == "STamper"),
         "tamper_classes": {"/".join(k): v for k, v in sorted(kinds.items())},
         "model_states": mc["distinct"],
         "model_transitions": mc["generated"],
